@@ -67,6 +67,17 @@ PROPS = {
                         "nothing is asserted about the enabled flag when the carrying parents disagree or both have it disabled"],
         "expect_classes": {"family": ["single-parent gene that is disabled", "matching gene disabled in exactly one parent", "tie with equal gene counts", "tie, first parent smaller", "tie, second parent smaller", "parents carry the same genes", "single-parent genes inherited"]},
     },
+    "C11": {
+        "run": "^TestC11",
+        "shards": 12,
+        "technique": "property-based testing (rapid): generated genomes (enabled/disabled, recurrent, self-loop genes, modules incl. overlapping ones) expressed as networks and compared with a structural model; exhaustive ordered-pair queries of the graph view per genome against an adjacency model",
+        "level_text": "Generated-input search over hand-built well-formed genomes; per genome the network structure is compared positionally / as multisets with the enabled part of the genome and every ordered pair over node ids, control ids and absent ids "
+                      "is put to all graph queries (exhaustive per genome, sampled over genomes). Absent results are compared with == nil as a Go caller would.",
+        "level_note": "trusted: the adjacency model built from the genome specification; module links have weight 1.0 (the YAML syntax has no weight field)",
+        "rule": "G-direct genomes with 0-2 modules; non-trivial = at least one disabled gene and (a recurrent or self-loop gene or an enabled module); distinct by (#nodes, #genes, #disabled, #recurrent, #self-loops, #modules, #enabled modules)",
+        "assumptions": ["genomes have at least one gene and one output (Genesis documents an error otherwise)"],
+        "expect_classes": {"genesis": ["disabled gene", "self-loop gene", "enabled module", "disabled module", "module reading and driving the same node"]},
+    },
 }
 
 # properties that the technique can not decide (none): id -> reason
